@@ -126,7 +126,8 @@ def gen_cases(ctx, table):
     def mk(tr, pid, **kw):
         c = {"transport": tr, "prefix_id": pid, "flush": 0, "rand_port": False, "cuts": [], "natural": False,
              "data_len": 0, "data_seed": rng.randrange(1, 1 << 30), "late_len": 16, "late_seed": rng.randrange(1, 1 << 30),
-             "delay_ms": 0, "others": OTHERS[next(oi) % len(OTHERS)], "kind": "?"}
+             "delay_ms": 0, "banner_len": 0, "banner_seed": rng.randrange(1, 1 << 30),
+             "others": OTHERS[next(oi) % len(OTHERS)], "kind": "?"}
         c.update(kw)
         cases.append(c)
 
@@ -138,12 +139,15 @@ def gen_cases(ctx, table):
             for rp in (False, True):
                 for dl in (0, 8):
                     mk(tr, pid, flush=flush, rand_port=rp, natural=True, data_len=dl, kind="natural")
-    # every 1-cut of flight (+ early data)
+    # every 1-cut of flight (+ early data).  Without early data the client then stays silent and the
+    # covert speaks first (a banner): the flight alone, exactly at its threshold length, must do.
     for tr, pid in sets:
         L = flen[(tr, pid)]
-        for dl in (0, 8):
-            for cut in range(1, L + dl):
-                mk(tr, pid, cuts=[cut], data_len=dl, kind="1cut")
+        for cut in range(1, L + 8):
+            mk(tr, pid, cuts=[cut], data_len=8, kind="1cut")
+        for cut in range(1, L):
+            mk(tr, pid, cuts=[cut], data_len=0, late_len=0, banner_len=24, kind="1cut-banner")
+        mk(tr, pid, cuts=[], data_len=0, late_len=0, banner_len=24, kind="1cut-banner")
     # 2-cuts: exhaustive for the chosen sets
     two = sets if not quick else [("min", 0), ("prefix", 1), ("prefix", 9)]
     for tr, pid in two:
@@ -182,6 +186,8 @@ def gen_cases(ctx, table):
     for cs in ocuts:
         for dl in ((0, 50) if quick else (0, 50, 3000)):
             mk("obfs4", 0, cuts=cs, data_len=dl, rand_port=rng.random() < 0.5, kind="obfs4")
+    for cs in ocuts[::3]:
+        mk("obfs4", 0, cuts=cs, data_len=0, late_len=0, banner_len=24, kind="obfs4")
     for _ in range(20 if quick else 300):
         k = rng.randrange(1, 7)
         cs = sorted(set(rng.choice([rng.randrange(1, 8192), -rng.randrange(1, 140)]) for _ in range(k)))
@@ -197,15 +203,17 @@ def oracle(ctx, c, r):
     tr = c["transport"]
     base = tr + ("/p%d" % c["prefix_id"] if tr == "prefix" else "")
     want = bytes(lcg_bytes(c["data_seed"], c["data_len"])) + bytes(lcg_bytes(c["late_seed"], c["late_len"]))
+    want_reply = bytes(lcg_bytes(c.get("banner_seed", 1), c.get("banner_len", 0))) + want
     brief = {k: c[k] for k in ("transport", "prefix_id", "flush", "rand_port", "cuts", "natural", "data_len", "data_seed",
-                               "late_len", "late_seed", "delay_ms", "others")}
+                               "late_len", "late_seed", "delay_ms", "banner_len", "banner_seed", "others")}
     brief["observed"] = {k: r.get(k) for k in ("err", "found", "found_t", "status", "updates", "segs", "reads", "echo_conns", "returned")}
     brief["observed"]["echo_len"] = (r.get("echo") or {}).get("len")
     brief["observed"]["reply_len"] = (r.get("reply") or {}).get("len")
     brief["sent_len"] = len(want)
 
-    def same(v):
-        return v and v["len"] == len(want) and int(v["hash"]) == bhash(want)
+    def same(v, w=None):
+        w = want if w is None else w
+        return v and v["len"] == len(w) and int(v["hash"]) == bhash(w)
     bad = False
     if not r.get("found") or r.get("found_t") != tr:
         ctx.fail(base + ":not-recognised", "a registered %s client's first flight was not recognised by the handler (segments %s)"
@@ -218,9 +226,9 @@ def oracle(ctx, c, r):
         ctx.fail(base + ":data-not-intact", "covert side received %s bytes, client sent %d after the handshake material (segments %s)"
                  % ((r.get("echo") or {}).get("len"), len(want), r.get("segs")), brief)
         bad = True
-    elif not same(r.get("reply")):
+    elif not same(r.get("reply"), want_reply):
         ctx.fail(base + ":reply-not-intact", "the covert's reply did not reach the client intact (%s of %d bytes)"
-                 % ((r.get("reply") or {}).get("len"), len(want)), brief)
+                 % ((r.get("reply") or {}).get("len"), len(want_reply)), brief)
         bad = True
     if r.get("status") != 1 or r.get("updates", 0) < 1:
         ctx.fail(base + ":not-marked-used", "registration not marked as used after its connection (status %s, updates %s)"
@@ -313,13 +321,19 @@ def run(ctx):
         return
     results = res["results"]
     terms, idx = [], []
-    # quick tier: the oracle looks at every connection, the model is evaluated on all of them except
-    # that only a sample of the 2-cut connections is sent through coqc (the thorough tier sends all)
-    two = [i for i, c in enumerate(cases) if c.get("kind") == "2cut"]
+    # quick tier: the oracle looks at every connection; the model is evaluated (coqc) on all natural /
+    # early-data / paced / obfs4 connections, on every 1-cut with early data, on the 1-cuts without
+    # early data that fall in the last bytes of the flight, and on a sample of the 2-cuts.  The
+    # thorough tier sends every connection through coqc.
     skip = set()
-    if ctx.tier == "quick" and len(two) > 600:
+    if ctx.tier == "quick":
+        two = [i for i, c in enumerate(cases) if c.get("kind") == "2cut"]
         ctx.rng.shuffle(two)
-        skip = set(two[600:])
+        skip = set(two[300:])
+        for i, c in enumerate(cases):
+            if c.get("kind") == "1cut-banner" and c["cuts"] and results[i].get("flight") and \
+                    c["cuts"][0] < len(results[i]["flight"]) // 2 - 4:
+                skip.add(i)
     for i, (c, r) in enumerate(zip(cases, results)):
         bad = oracle(ctx, c, r)
         kind = "%s/%s/%s" % (c["transport"], c.get("kind", "replay"), "ok" if not bad else "bad")
@@ -340,7 +354,7 @@ def run(ctx):
         r = results[i]
         ctx.sample({"case": {k: cases[i][k] for k in ("transport", "prefix_id", "cuts", "data_len", "natural", "kind")},
                     "observed": {k: r.get(k) for k in ("found_t", "segs", "reads", "status", "updates")}})
-    kinds = ["min/natural/ok", "min/1cut/ok", "min/2cut/ok", "prefix/natural/ok", "prefix/1cut/ok", "prefix/2cut/ok",
+    kinds = ["min/natural/ok", "min/1cut/ok", "min/1cut-banner/ok", "prefix/1cut-banner/ok", "min/2cut/ok", "prefix/natural/ok", "prefix/1cut/ok", "prefix/2cut/ok",
              "prefix/early/ok", "prefix/paced/ok", "obfs4/obfs4/ok"]
     if not ctx.known and not os.environ.get("VERIF_C04_ONLY"):
         ctx.require_kinds(kinds)
